@@ -51,7 +51,7 @@ TOL = 1e-9
 
 def plan(tier, seed):
     n = 14
-    inst = 20 if tier == "quick" else 30
+    inst = 20 if tier == "quick" else 250
     specs = [{"name": "k%02d" % i, "kind": "kernel", "shard": i, "instances": inst, "timeout": 7000} for i in range(n)]
     specs.append({"name": "exch", "kind": "exchange", "shard": 90, "cases": 3000 if tier == "quick" else 40000, "timeout": 7000})
     specs.append({"name": "orch", "kind": "orch", "shard": 91, "runs": 4 if tier == "quick" else 40, "timeout": 7000})
@@ -77,6 +77,8 @@ def required(tier):
 def make_instance(rng, tier):
     ploidy = int(rng.choice([2, 3, 4] if tier == "quick" else [2, 3, 4, 5]))
     n_pos = int(rng.choice([1, 2, 3] if tier == "quick" else [1, 2, 3, 4]))
+    if ploidy > 3 and n_pos > 3:
+        n_pos = 3  # 4 sites need >= 16 haplotypes, more than the cap for ploidy > 3
     high = rng.random() < 0.1
     if high:
         # high ploidy (pooled samples) on a tiny locus
@@ -281,7 +283,7 @@ def check_instance(I, rng, col, tier, inst_id, only_state=None):
             packed = pack_instance(I)
         col.violation(mech, msg, {"instance": packed, "state": x.tolist(), "extra": extra})
 
-    row_budget = 15000 if tier == "quick" else 12000
+    row_budget = 15000 if tier == "quick" else 40000
     rows_at_start = col.counters.get("base_rows", 0) + col.counters.get("interval_rows", 0)
     for x in states:
         if only_state is not None and x.tolist() != only_state:
